@@ -410,7 +410,9 @@ def handleOvf (kv : List (String × String)) (impl : String) : String × String 
         let shape := ((o1.bind fun o => parseShape o.shape).getD .other)
         let (outcome, truth) : HttpOutcome × Truth := reqOutcome false r.truth r.script ((o1.map (·.proto)).getD 0) shape
         let plan : ShotPlan := { ammoTag := r.tag, path := r.path, outcome := outcome }
-        let fate : Fate := if firedAt i then .fired else .discarded
+        -- a request that is not fired: discarded (the run goes on) — or, when the run was cancelled (`cxf`), dropped: the
+        -- loop ends without a sample
+        let fate : Fate := if firedAt i then .fired else if getS kv "cxf" != "" then .dropped else .discarded
         let exp := expTagOf kv r.tag r.path
         -- a request the target never saw, with a sample of a FAILED exchange: it was fired and did not get through (an
         -- overloaded host); nothing can be concluded about the instance's decision
